@@ -19,6 +19,7 @@ type Assertion struct {
 	NeedTag string // only visible to obligations carrying this tag
 	HasPred bool   // join definition for the edge from top-frame block Pred
 	Pred    int
+	Always  bool // a fact that does not depend on the path (value of a package-level constant): exempt from path slicing
 }
 
 // Obligation is one proof goal.
